@@ -28,15 +28,23 @@ structure ValOK (t : Bytes) (c : Cell) : Prop where
   skip : ∀ (sk : ArgSkipper) (rest : Bytes) (ty : UInt8) (ib : Bool), Sep rest →
     ∃ dl, Pretty.skipValue sk (t ++ rest) ty ib = .ok (some ⟨some rest, 1, c.type, dl⟩)
 
-/-- the C11 model reads the text `t` as the cells `cs` of one argument -/
+/-- the C11 model reads the text `t` as the cells `cs` of one argument.  The recursion bound only
+    has to cover the nesting depth, which never exceeds the length of the text. -/
 structure Arg11 (t : Bytes) (cs : List Cell) : Prop where
   start : TokStart t
-  cells : ArgCells cs
-  scan : ∀ (rest : Bytes) (fuel : Nat) (prev : List Cell) (ab : Nat) (fe : Bool), Sep rest →
-    C11.scanArgVal (fuel + 2) (t ++ rest) prev ab fe = .ok (t.length, cs)
-  skip : ∀ (rest : Bytes) (fuel : Nat) (ty : UInt8) (llhs : Option Bytes) (fe ib : Bool), Sep rest →
-    ∃ r, C11.skipNextPrintedArg (fuel + 2) (t ++ rest) ty llhs fe ib = .ok r ∧
+  ne : cs ≠ []
+  /-- `next_arg_offset` at the first cell: all cells -/
+  off : nextArgOffset (cs.length + 1) cs = .ok cs.length
+  /-- `can_precede_range` is defined on the cells -/
+  cpr : ∃ b, canPrecedeRange cs = .ok b
+  scan : ∀ (rest : Bytes) (fuel : Nat) (prev : List Cell) (ab : Nat) (fe : Bool), Sep rest → t.length ≤ fuel →
+    C11.scanArgVal (fuel + 1) (t ++ rest) prev ab fe = .ok (t.length, cs)
+  skip : ∀ (rest : Bytes) (fuel : Nat) (ty : UInt8) (llhs : Option Bytes) (fe ib : Bool), Sep rest → t.length ≤ fuel →
+    ∃ r, C11.skipNextPrintedArg (fuel + 1) (t ++ rest) ty llhs fe ib = .ok r ∧
       r.src = some rest ∧ r.skipped = cs.length ∧ r.type = (cs.headD (Cell.flag .N)).type
+
+theorem Arg11.length_pos {t : Bytes} {cs : List Cell} (h : Arg11 t cs) : 0 < cs.length :=
+  List.length_pos_iff.mpr h.ne
 
 /-- a value that is not followed by an ellipsis is what the repaired `rtosc_scan_arg_val` returns -/
 theorem finishArg_plain (se : ElemScanner) (t rest : Bytes) (cells : List Cell) (av : Bool)
@@ -51,15 +59,21 @@ theorem scanValue_noBracket (se : ElemScanner) (s : Bytes) (prev : List Cell) (h
   unfold C11.scanValue
   simp [h]
 
+theorem canPrecedeRange_scalar (c : Cell) (more : List Cell) (h : c.isScalar = true) :
+    canPrecedeRange (c :: more) = .ok true := by
+  unfold canPrecedeRange
+  cases c <;> simp_all [deref, ArgVal.Cell.isScalar, bind, Except.bind, pure, Except.pure]
+
 theorem ValOK.arg11 {t : Bytes} {c : Cell} (h : ValOK t c) : Arg11 t [c] := by
-  refine ⟨h.start, ArgCells.scalar c h.scalar, ?_, ?_⟩
-  · intro rest fuel prev ab fe hs
+  refine ⟨h.start, by simp, ?_, ⟨true, canPrecedeRange_scalar c [] h.scalar⟩, ?_, ?_⟩
+  · simpa using nextArgOffset_scalar 1 c [] h.scalar
+  · intro rest fuel prev ab fe hs _
     have hb : hd (t ++ rest) ≠ 91 := by rw [hd_append_of_ne_nil _ _ h.start.1]; exact h.noBracket
     unfold C11.scanArgVal
     simp only [scanValue_noBracket _ _ _ hb, h.scan _ rest prev hs, bind, Except.bind]
     exact finishArg_plain _ t rest [c] true prev ab fe hs
-  · intro rest fuel ty llhs fe ib hs
-    obtain ⟨dl, hv⟩ := h.skip (C11.skipNextPrintedArg (fuel + 1)) rest ty ib hs
+  · intro rest fuel ty llhs fe ib hs _
+    obtain ⟨dl, hv⟩ := h.skip (C11.skipNextPrintedArg fuel) rest ty ib hs
     have h3 := (sep_skipSpace_facts rest hs).2
     refine ⟨⟨some rest, 1, c.type⟩, ?_, rfl, rfl, rfl⟩
     unfold C11.skipNextPrintedArg
@@ -73,10 +87,5 @@ theorem ValOK.tokOK {t : Bytes} {c : Cell} (h : ValOK t c) : TokOK t c := by
   · intro rest fuel ty llhs ib hs
     obtain ⟨dl, hv⟩ := h.skip (Pretty.skipNextPrintedArg fuel) rest ty ib hs
     exact skipNext_of_value t rest c.type dl fuel ty llhs ib hs hv
-
-theorem canPrecedeRange_scalar (c : Cell) (more : List Cell) (h : c.isScalar = true) :
-    canPrecedeRange (c :: more) = .ok true := by
-  unfold canPrecedeRange
-  cases c <;> simp_all [deref, ArgVal.Cell.isScalar, bind, Except.bind, pure, Except.pure]
 
 end Rtosc.Pretty.C11
